@@ -4,7 +4,9 @@ package payload
 
 // Helpers shared by the JSON / protobuf / API-struct parsers (parse_datadog.go, parse_newrelic.go, parse_otlp.go,
 // parse_cloudwatch.go). Every identifier here starts with "js" so that it cannot clash with the text-protocol parsers
-// that live in the same package.
+// that live in the same package. In all four parsers Payload.Index counts the payloads that are returned (requests
+// that are not metric payloads, e.g. events, are skipped and do not get an index) and the output keeps the order of
+// the input.
 
 import (
 	"bytes"
